@@ -1158,6 +1158,19 @@ static void chan_unlock_args(const Janet *argv, int32_t n) {
     }
 }
 
+/* Check if a fiber is still waiting to read from the channel. Stale entries (fibers that have
+ * been resumed by something else since) at the head of the queue are dropped. */
+static int janet_chan_has_reader(JanetChannel *chan) {
+    JanetQueue *q = &chan->read_pending;
+    while (q->head != q->tail) {
+        JanetChannelPending *reader = (JanetChannelPending *) q->data + q->head;
+        /* don't dereference fiber from another thread */
+        if (janet_chan_is_threaded(chan) || reader->sched_id == reader->fiber->sched_id) return 1;
+        q->head = q->head + 1 < q->capacity ? q->head + 1 : 0;
+    }
+    return 0;
+}
+
 JANET_CORE_FN(cfun_channel_choice,
               "(ev/select & clauses)",
               "Block until the first of several channel operations occur. Returns a "
@@ -1189,7 +1202,7 @@ JANET_CORE_FN(cfun_channel_choice,
                 chan_unlock_args(argv, i);
                 return make_close_result(chan);
             }
-            if (janet_q_count(&chan->items) < chan->limit) {
+            if (janet_q_count(&chan->items) < chan->limit || janet_chan_has_reader(chan)) {
                 janet_channel_push_with_lock(chan, data[1], 1);
                 chan_unlock_args(argv, i);
                 return make_write_result(chan);
